@@ -39,6 +39,10 @@ def run(tier, seed, t0):
                 g.write(line)
     summ = json.loads(vlib.run_harness(["c11", data + ".rows", out, seed, nrandom]))
     events, mism, r = vlib.judge_trace("Trace_C11", os.path.join(out, "c11.events.ndjson"))
+    # NumPoints() is specified (Objects!NumPointsObj) and observed, but C11's statement is about Rect / Center / Valid / Empty: deviations of
+    # the count are reported in the evidence, not alarmed (the count of a collection as the sum of its children's is C10's, checked there)
+    np_dev = [m for m in mism if events[m[1] - 1]["op"] == "npoints"]
+    mism = [m for m in mism if events[m[1] - 1]["op"] != "npoints"]
     vlib.classify(v, events, mism, describe)
     for l in open(os.path.join(out, "c11.float.ndjson")):
         e = json.loads(l)
@@ -65,6 +69,7 @@ def run(tier, seed, t0):
         "samples": [{"generated_row": {"tree": row[1], "empty": row[2], "rect": row[3], "center_x2": row[4], "valid": row[5], "npoints": row[6]}},
                     {"recorded_event": events[-1]}],
         "decimal_coordinate_cases": summ["float_cases"], "decimal_coordinate_mismatches": summ["float_mismatches"],
+        "numpoints_deviations_outside_the_statement": len(np_dev),
         "replayed_rows": summ["rows"], "objects_also_built_via_parse": summ["parsed_ok"], "replay_mismatches": summ["mismatches"],
         "events_judged_by_tlc": len(events), "mismatches_vs_L1": len(mism), "model_level_deviations_L2_vs_L1": devs,
         "known_finding_hits": v.known_hits,
